@@ -461,8 +461,8 @@ func main() {
 	} else {
 		var res struct {
 			Runs, Transitions, Bound, Files, Points int
-			Failures                              []struct{ Clause, Scenario, Schedule, Detail, Trace string }
-			Internal                              string
+			Failures                                []struct{ Clause, Scenario, Schedule, Detail, Trace string }
+			Internal                                string
 		}
 		if err := json.Unmarshal([]byte(hc), &res); err != nil {
 			r.Internal("harness C: bad result: " + err.Error())
